@@ -56,6 +56,31 @@ theorem byte_survives_word_roundtrip (m : Mem) (a w b : Nat) (hw : 1 ≤ w) (hb 
     (m.writeLE a w b).rd a = b := by
   rw [word_store_then_byte_read m a w b hw hb, Nat.mod_eq_of_lt hlt]
 
+/-- the word unary minus computes, as a function -/
+def negW (M x : Nat) : Nat := (M - x) % M
+
+/-- unary minus at the boundary: the most negative word negates to itself (as on the machine, and as `write(int)`
+then prints it: `decimalW` takes `M - v`), and zero to zero -/
+theorem neg_boundary (M : Nat) (hM : 2 ≤ M) (he : M % 2 = 0) : negW M (M / 2) = M / 2 ∧ negW M 0 = 0 := by
+  unfold negW
+  refine ⟨?_, by simp⟩
+  have : M - M / 2 = M / 2 := by omega
+  rw [this]; exact Nat.mod_eq_of_lt (by omega)
+
+/-- unary minus is an involution on words, for every modulus: `-(-x) = x` including the most negative word -/
+theorem neg_neg_word (M x : Nat) (hx : x < M) : negW M (negW M x) = x := by
+  unfold negW
+  by_cases h0 : x = 0
+  · subst h0; simp
+  · have h1 : (M - x) % M = M - x := Nat.mod_eq_of_lt (by omega)
+    rw [h1]
+    have : M - (M - x) = x := by omega
+    rw [this]; exact Nat.mod_eq_of_lt hx
+
+/-- tie to the lowering: what the generator's `sub 0, x` computes is `negW` -/
+theorem neg_lowering_is_negW (M n x : Nat) (hx : x < M) : aluOp M n .sub 0 x = some (negW M x) :=
+  neg_lowering M n x hx
+
 /-- spot check of the specification itself (floor division, assumption A4): -7 / 2 = -4, -7 % 2 = 1 at 16 bits -/
 example : aluOp 65536 16 .div 65529 2 = some 65532 ∧ aluOp 65536 16 .mod 65529 2 = some 1 := by decide
 
